@@ -418,6 +418,16 @@ def run(ctx):
             gfv_ok = len(other) == 1 and all(call_is(x, "msmart.utils.MideaIntEnum.get_from_value") and x[2][0] == ("global", f"{AC}.FanSpeed")
                                              and strip(x[2][-1]) == raw for x in other)
             fan_ok = custom == {ctor, raw} and gfv_ok
+            # ... and the fallback is reached for the exception FanSpeed(<non-member>) raises: a ValueError
+            from ..helpers import ancestor_chains
+            fs_sites = ancestor_chains(prog, us, lambda f_, n: norm(n.func).endswith("FanSpeed") and len(n.args) == 1)
+            for _f, _n, chains in fs_sites:
+                for ch in chains:
+                    tr_ = next((x for x, fld in ch if isinstance(x, ast.Try) and fld == "body"), None)
+                    caught = tr_ is not None and any(
+                        h.type is None or {norm(e_) for e_ in (h.type.elts if isinstance(h.type, ast.Tuple) else [h.type])} & {"ValueError", "Exception", "BaseException"}
+                        for h in tr_.handlers)
+                    fan_ok = fan_ok and caught
     ctx.count("mapped_attributes")
     ctx.ob("C11.d", us.qual, fan_ok, "fan speed: FanSpeed(raw) with raw-integer fallback when custom speeds are supported, else get_from_value", func=us.qual,
            file=us.module.rel, construct="self._fan_speed mapping", detail={"stored": show(v)[:200] if v else None},
